@@ -11,7 +11,7 @@ CLAIMED = {
     "C10": dict(
         text="Proof: Severity's six operators as implemented equal the documented ranking on all 36 pairs of the "
              "regenerated enum table (finite, vm_compute lifted by forallb_forall); severity = max of findings for "
-             "finding lists of any length; every face (is_likely_safe, loader threshold, CLI exit, JSON) is the stated "
+             "finding lists of any length; every face (is_likely_safe, bool(results), loader threshold, CLI exit, JSON) is the stated "
              "function of that severity. Tie: exhaustive 216-case comparison with the live enum + differential run of "
              "all faces on generated stacked files.",
         note=BASE_NOTE + "Modelled, not verified: argparse / json / file handling of the CLI (differential only).",
